@@ -89,7 +89,7 @@ func genValidSigner(t *rapid.T, kind string) Signer {
 		}
 	}
 	if s.Kind == "hmac" || s.Kind == "hmacInt" {
-		s.Key = Blob{N: rapid.IntRange(1, 40).Draw(t, "vkeyLen"), S: rapid.Byte().Draw(t, "vkeySeed")}
+		s.Key = Blob{N: rapid.SampledFrom([]int{1, 2, 16, 31, 32, 33, 40, 63, 64, 65, 128, 200}).Draw(t, "vkeyLen"), S: rapid.Byte().Draw(t, "vkeySeed")}
 	}
 	return s
 }
@@ -343,9 +343,21 @@ func execC12(c C12Case) (res evid.Result) {
 	}
 	offs, inHeader := resolveCuts(c.Cuts, len(b.joined), []*tw.Node{rp.root})
 	specific := "Read" + kindWord
+	// the bytes each reader was given (the decoders return views into them): they must still be
+	// the packet after decoding and validating (seeded defect C12-r4-1: a validator that
+	// appends the later signed ranges to the first one, i.e. into the received packet)
+	var lastInput func() []byte
 	readers := []readerKind{
-		{"BufferReader(joined)", func() enc.ParseReader { return enc.NewBufferReader(append([]byte(nil), b.joined...)) }},
-		{fmt.Sprintf("WireReader(cuts %v of %d)", offs, len(b.joined)), func() enc.ParseReader { return enc.NewWireReader(segment(b.joined, offs)) }},
+		{"BufferReader(joined)", func() enc.ParseReader {
+			buf := append([]byte(nil), b.joined...)
+			lastInput = func() []byte { return buf }
+			return enc.NewBufferReader(buf)
+		}},
+		{fmt.Sprintf("WireReader(cuts %v of %d)", offs, len(b.joined)), func() enc.ParseReader {
+			w := segment(b.joined, offs)
+			lastInput = func() []byte { return w.Join() }
+			return enc.NewWireReader(w)
+		}},
 	}
 	for _, rk := range readers {
 		for _, how := range []string{specific, "ReadPacket"} {
@@ -365,6 +377,18 @@ func execC12(c C12Case) (res evid.Result) {
 			// validate exactly what the decoder returned (wire form, as a caller would)
 			if !p.Sig.validate(enc.Wire{d.covered}, d.sig) {
 				return fail("the %s validator rejects the untampered packet decoded by %s on %s (signature type in packet: %d)", p.Sig.Kind, how, rk.name, d.v.sigType)
+			}
+			// ... and validating the ranges as the decoder returned them (views into the
+			// received bytes) must leave the received bytes alone and give the same verdict twice
+			if d.coveredWire != nil {
+				for round := 1; round <= 2; round++ {
+					if !p.Sig.validate(d.coveredWire, d.sig) {
+						return fail("the %s validator rejects the untampered packet decoded by %s on %s when given the signed ranges as the decoder returned them (validation #%d)", p.Sig.Kind, how, rk.name, round)
+					}
+					if in := lastInput(); !bytes.Equal(in, b.joined) {
+						return fail("validating the untampered packet decoded by %s on %s changed the received bytes (first difference at byte %d of %d): the validator wrote into the packet", how, rk.name, firstDiffAt(in, b.joined), len(b.joined))
+					}
+				}
 			}
 		}
 	}
@@ -489,3 +513,11 @@ func TestC12Signed(t *testing.T) {
 func TestC12SignedReplay(t *testing.T) { evid.Replay(t, "TestC12Signed", execC12) }
 
 func TestC12SignedRegress(t *testing.T) { evid.Regress(t, "C12", "TestC12Signed", execC12) }
+
+func firstDiffAt(a, b []byte) int {
+	i := 0
+	for i < len(a) && i < len(b) && a[i] == b[i] {
+		i++
+	}
+	return i
+}
